@@ -93,7 +93,7 @@ func runEpochWorldsC09(r *ev.Run) {
 		}
 		label := fmt.Sprintf("pe%d", k)
 		tied := k%2 == 0
-		w := genEpochWorld(func() *rand.Rand { return r.Rand("epoch-world/" + label) }, label, 18+5*k, tied)
+		w := genEpochWorld(func() *rand.Rand { return r.Rand("epoch-world/" + label) }, label, 26+5*k, tied)
 		modes, err := buildModes(w)
 		if err != nil {
 			r.Inconclusive("cannot index world: " + err.Error())
@@ -128,7 +128,38 @@ func runEpochWorldsC09(r *ev.Run) {
 			r.Note("world_features", k)
 		}
 	}
-	r.Require("time_features", "unix-epoch")
+	// far worlds: creation times outside 1678..2262 (date attributes), scrolled and pivoted around
+	for k := 0; k < r.Pick(1, 3); k++ {
+		wid := fmt.Sprintf("world-far%d;", k)
+		if !r.Only(wid) {
+			continue
+		}
+		label := fmt.Sprintf("pf%d", k)
+		w := genSearchWorldX(r.Rand("far-world/"+label), label, 36+6*k, false, false, worldOpts{far: true})
+		modes, err := buildModes(w)
+		if err != nil {
+			r.Inconclusive("cannot index world: " + err.Error())
+			continue
+		}
+		r.Note("time_features", "outside-1678-2262")
+		cons := []*search.Constraint{
+			{CamliType: schema.TypePermanode},
+			{Permanode: &search.PermanodeConstraint{SkipHidden: true}},
+			{Permanode: &search.PermanodeConstraint{Time: &search.TimeConstraint{Before: types.Time3339(time.Date(1700, 1, 1, 0, 0, 0, 0, time.UTC))}}},
+		}
+		for ci, c := range cons {
+			cj, _ := json.Marshal(c)
+			(&pager{r: r, w: w, wid: wid, c: c, cj: cj, m: modes[(ci+k)%2]}).checkAll(false)
+		}
+		r.Count("worlds", 1)
+		r.Count("far_worlds", 1)
+		for k, n := range w.features {
+			r.Count("feature:"+k, n)
+			r.Note("world_features", k)
+		}
+	}
+	r.Require("time_features", "unix-epoch", "outside-1678-2262")
+	r.Require("world_features", "far/date-attr-outside-1678-2262", "created-time/before-1678", "created-time/after-2262", "created-time/year-1-or-9999")
 	r.Require("world_features", "epoch/date-attr-at-or-next-to-unix-epoch", "epoch/camliContent-file-with-modtime-0", "created-time/exactly-unix-epoch",
 		"created-time/exactly-unix-epoch-in-non-UTC-notation", "created-time/within-the-epoch-second", "created-time/pre-1970", "created-time/post-1970",
 		"mod-time/pre-1970", "mod-time/post-1970", "mod-time/one-second-off-the-unix-epoch")
